@@ -255,6 +255,18 @@ def run(F, chk):
                                       "GetStringRefs" if kind == "str" else "GetChildRefs/GetPtrs"),
                                   {"live_versions": live})
                 reported[key]["classes"].append(D)
+        # a reference is either a child reference or a back pointer, never both: SetBlockOrder remaps the two sets one after the
+        # other, so a reference reported by both enumerators is permuted twice
+        for p in sorted(en["child"] & en["ptr"], key=render):
+            owner, _ = F.find_field(D, p[1]) if p and len(p) > 1 and p[0][0] == "this" else (D, None)
+            key = "C05/R5.5:%s:%s:both" % (owner, render(p))
+            chk.instance(R5, ok=False, sample={"class": D, "path": render(p), "reported_by": "GetChildRefs and GetPtrs"})
+            if key not in reported:
+                reported[key] = {"classes": [D]}
+                f = _final(F, owner or D, "GetPtrs") or _final(F, D, "GetPtrs")
+                chk.violation("R5.5", key, where(f) if f else "?",
+                              "reference `%s` of %s is reported by GetChildRefs and by GetPtrs: a reorder (every sorted save) remaps "
+                              "it twice and it designates another block afterwards" % (render(p), owner))
         # R5.5 sibling agreement child vs idx
         if en["child"] != en["idx"]:
             for p in sorted(en["child"] ^ en["idx"], key=render):
